@@ -15,9 +15,9 @@ func init() {
 			c.runComplementarySplit("CS", pkgs, ff)
 			c.floor("CS", 4)
 			c.runZeroSlot("ZEROSLOT", append(c.libPkgs(), c.fixturePkg("s")), nil)
-			c.floor("ZEROSLOT", 6)
+			c.floor("ZEROSLOT", 2)
 			c.runPair("PAIR", append(c.libPkgs(), c.fixturePkg("s")), nil)
-			c.floor("PAIR", 4)
+			c.floor("PAIR", 2)
 			c.runCallbackCount(iterFamily, pkgs)
 			c.floor("A3.CNT", 4)
 			c.floor("A3.GUARD", 2)
